@@ -32,7 +32,8 @@ COMPONENTS = {
              "between save and load"],
 }
 TECHNIQUE = ("FSBOX: save, inject storage faults into the stored bytes (crash / corruption model), "
-             "restart, read through every entry point; totality and kept-parts oracles")
+             "restart, read through every entry point (with and without the readers' own validation); "
+             "totality, lenient-warns and kept-parts oracles")
 LEVEL_TEXT = ("Seeded exploration of the reader as the component that consumes a stored stream which "
               "storage faults have damaged. XML: every entry point returns a Document or raises "
               "ParserException (InvalidVersionException for another version) and returns in time; "
@@ -42,7 +43,7 @@ LEVEL_TEXT = ("Seeded exploration of the reader as the component that consumes a
               "exactly one complete element, or dropping an empty child list must leave every other "
               "object in the lenient result; every returned document is a well-formed tree with "
               "unique names and canonical ids.")
-LEVEL_NOTE = ("PARTIAL: only fault-derived inputs. Structural shapes no storage fault produces (wrong "
+LEVEL_NOTE = ("PARTIAL: only fault-derived inputs (storage faults incl. a substituted scalar, plus a small corpus of extreme / minimal stored shapes). Structural shapes no storage fault produces (wrong "
               "nesting, unknown elements with children, case variants, arbitrary strings) are out of "
               "reach; the evidence counts which shape classes were hit. Damaged JSON/YAML text that "
               "no longer decodes to an odML-shaped dict is counted as unjudged.")
